@@ -81,7 +81,8 @@ func (w *world) factory(mode string) *appencryption.SessionFactory {
 	default:
 		pol = appencryption.NewCryptoPolicy()
 	}
-	f := appencryption.NewSessionFactory(&appencryption.Config{Service: w.service, Product: w.product, Policy: pol}, ms, w.km, w.crypto)
+	f := appencryption.NewSessionFactory(&appencryption.Config{Service: w.service, Product: w.product, Policy: pol}, ms, w.km, w.crypto,
+		appencryption.WithSecretFactory(heapFactory{}))
 	w.factories[key] = f
 	return f
 }
